@@ -20,6 +20,18 @@ NEUTRALS = "SGCHNQTVI"
 REPRESENTATIVE = ("trypsin", "lys-n", "chymotrypsin+", "asp-n")
 
 
+_SRC = {}
+
+
+def _source_rules():
+    """ENZYME_CLEAVAGE_RULES read from the source text of digest.py (never imported)"""
+    if "rules" not in _SRC:
+        import tables
+
+        _SRC["rules"] = tables.module_constants(lib.REPO / "picked_group_fdr" / "digest.py")["ENZYME_CLEAVAGE_RULES"]
+    return _SRC["rules"]
+
+
 def rule_table():
     from picked_group_fdr import digest
 
@@ -199,7 +211,16 @@ class P(Prop):
             return "no output"
         if impl_out.get("err") == "unknown_enzyme":
             return None if case["enzyme"] not in rule_table() else "known enzyme rejected"
-        pre, not_post, post = impl_out["_rec"]["rule"]
+        # the rule comes from the SOURCE TEXT of the enzyme table (ast, as harness/tables.py reads it), not from what
+        # the implementation looked up for this name: a lookup that maps one supported name onto another's rule is
+        # then a failing input and not only a disagreement with the model
+        src = _source_rules().get(case["enzyme"])
+        if src is None:
+            return f"enzyme {case['enzyme']!r} was accepted although the table in the source does not list it"
+        pre, not_post, post = list(src["pre"]), list(src["not_post"]), list(src["post"])
+        if [pre, not_post, post] != [list(x) for x in impl_out["_rec"]["rule"]]:
+            return (f"get_cleavage_sites({case['enzyme']!r}) returns {impl_out['_rec']['rule']}, the enzyme table says "
+                    f"{[pre, not_post, post]}")
         seq = case["seq"]
         want_sites = sorted(sites(seq, pre, not_post, post))
         if impl_out["sites"] != want_sites:
